@@ -11,6 +11,7 @@ import re
 from gemato.exceptions import (
     ManifestSyntaxError,
     ManifestUnsignedData,
+    UnsupportedHash,
     )
 from gemato.util import (
     path_starts_with,
@@ -575,4 +576,7 @@ def manifest_hashes_to_hashlib(hashes):
     in @hashes. Returns an iterable.
     """
     for h in hashes:
-        yield MANIFEST_HASH_MAPPING[h]
+        try:
+            yield MANIFEST_HASH_MAPPING[h]
+        except KeyError:
+            raise UnsupportedHash(h)
